@@ -21,6 +21,59 @@ import (
 
 const knownKey = "async-send-vs-unsub"
 
+// Second known finding: a PubSub returned by WithOnly keeps the subscription's channel in its own list,
+// outside the original's lifecycle. Once the original Unsub/UnsubAll has closed that channel, ANY publish
+// through the clone (even PubSync) sends on a closed channel and panics:
+// c := ps.WithOnly(sub); ps.Unsub(sub); c.PubSync(1).
+const knownKey2 = "withonly-clone-after-unsub"
+
+// cloneAfterUnsub replays the script's bookkeeping: does it publish through a persistent clone whose
+// subscription the PubSub has removed by then?
+func cloneAfterUnsub(c Case) bool {
+	type sub struct {
+		live, onClone bool
+	}
+	var subs []*sub
+	var clones []*sub // member (nil if none)
+	for _, st := range c.Steps {
+		switch st.K {
+		case "sub":
+			s := &sub{live: true}
+			if st.Via > 0 && len(clones) > 0 {
+				s.onClone = true
+			}
+			subs = append(subs, s)
+		case "clone":
+			var m *sub
+			if st.Target >= 0 && len(subs) > 0 {
+				if t := subs[st.Target%len(subs)]; t.live && !t.onClone {
+					m = t
+				}
+			}
+			clones = append(clones, m)
+		case "unsub":
+			if st.Target >= 0 && len(subs) > 0 {
+				if t := subs[st.Target%len(subs)]; !t.onClone {
+					t.live = false
+				}
+			}
+		case "unsuball":
+			for _, t := range subs {
+				if !t.onClone {
+					t.live = false
+				}
+			}
+		case "pub":
+			if st.Via > 0 && len(clones) > 0 {
+				if m := clones[(st.Via-1)%len(clones)]; m != nil && !m.live {
+					return true
+				}
+			}
+		}
+	}
+	return false
+}
+
 type KCase struct {
 	Script Case `json:"script"`
 }
@@ -92,7 +145,11 @@ func RunKnown(k KCase) pbt.Outcome {
 			asyncBeforeUnsub = true
 		}
 	}
-	if matchesKnown(log) && asyncBeforeUnsub {
+	if matchesKnown(log) && cloneAfterUnsub(c) && (!asyncBeforeUnsub || !strings.Contains(log, "created by gopkg.in/typ.v4/chans.(*PubSub")) {
+		return pbt.Outcome{Known: knownKey2, NonTrivial: true, Labels: []string{"died:send-on-closed-channel-via-clone(known)"},
+			KnownWhat: "a publish through a persistent WithOnly clone after the original PubSub had unsubscribed (closed) the clone's channel: panic: send on closed channel in chans.SendTimeout <- (*PubSub).send"}
+	}
+	if matchesKnown(log) && (asyncBeforeUnsub || cloneAfterUnsub(c)) {
 		return pbt.Outcome{Known: knownKey, NonTrivial: true, Labels: []string{"died:send-on-closed-channel(known)"},
 			KnownWhat: "Unsub/UnsubAll closed a channel while an asynchronous send (Pub/PubSlice/PubWait/PubSliceWait) to it was in flight: panic: send on closed channel in chans.SendTimeout <- (*PubSub).send"}
 	}
@@ -110,17 +167,24 @@ func RunKnown(k KCase) pbt.Outcome {
 
 var specKnown = pbt.Register(&pbt.Spec[KCase]{
 	Property: "C10", Name: "C10.known",
-	Rule: "child-process scenarios of the crash-prone class: the deterministic probe Sub(); Pub(e); Unsub(sub) with nobody receiving (re-demonstrates the known finding on every run) followed by rapid scripts in which " +
+	Rule: "child-process scenarios of the crash-prone class: the deterministic probe Sub(); Pub(e); Unsub(sub) with nobody receiving (re-demonstrates known finding 1 on every run), the probe Sub(); c := WithOnly(sub); Unsub(sub); c.PubSync(e) (known finding 2: a persistent WithOnly clone publishes to a channel its original has closed), followed by rapid scripts in which " +
 		"Unsub/UnsubAll is NOT preceded by settling in-flight asynchronous sends; a child death matching the known signature (panic 'send on closed channel', frames chans.SendTimeout and (*PubSub).send, script has an async publish " +
 		"before an Unsub) is reported as KNOWN-FINDING key=async-send-vs-unsub; any other death or oracle failure is a violation; non-trivial = every case (each is a separate process)",
 	Enum: func(shard, shards int, tier string, yield func(KCase) bool) {
-		yield(KCase{Script: Case{Timeout: "0", Steps: []Step{{K: "sub", Buf: -1, Recv: "never"}, {K: "pub", Variant: "Pub"}, {K: "unsub", Target: 0}}}})
+		if !yield(KCase{Script: Case{Timeout: "0", Steps: []Step{{K: "sub", Buf: -1, Recv: "never"}, {K: "pub", Variant: "Pub"}, {K: "unsub", Target: 0}}}}) {
+			return
+		}
+		yield(KCase{Script: Case{Timeout: "0", Steps: []Step{{K: "sub", Buf: 1, Recv: "drain"}, {K: "clone", Target: 0}, {K: "unsub", Target: 0}, {K: "pub", Variant: "PubSync", Via: 1}}}})
 	},
 	Gen: func(t *rapid.T) KCase {
 		c := genCase(t)
 		// make sure there is an asynchronous publish followed by an unsubscribe
 		c.Steps = append(c.Steps, Step{K: "pub", Variant: rapid.SampledFrom([]string{"Pub", "PubSlice"}).Draw(t, "v"), N: 2},
 			Step{K: rapid.SampledFrom([]string{"unsub", "unsuball"}).Draw(t, "u"), Target: rapid.IntRange(0, 3).Draw(t, "target")})
+		if rapid.IntRange(0, 2).Draw(t, "clonecase") == 0 {
+			c.Steps = append(c.Steps, Step{K: "sub", Buf: 2, Recv: "drain"}, Step{K: "clone", Target: len(c.Steps)}, Step{K: "unsuball"},
+				Step{K: "pub", Variant: rapid.SampledFrom([]string{"PubSync", "PubWait", "Pub", "PubSliceSync"}).Draw(t, "cv"), N: 1, Via: 9})
+		}
 		return KCase{Script: c}
 	},
 	Run: RunKnown, Quick: 60, Thorough: 1500, NoRecover: false,
